@@ -56,7 +56,7 @@ func colRefIs(e pgmodel.Expr, name string) bool {
 
 func checkC08(cfg *core.Config) int {
 	rep := core.NewReport(cfg)
-	progs := sqlProgs(cfg.Seed, cfg.Pick(24, 250))
+	progs := sqlProgs(cfg.Seed, cfg.Pick(24, 1500))
 	progs = append(progs, pinnedPrograms("C08")...)
 	pl := NewPipeline(cfg, rep, progs, true)
 	defer pl.Close()
